@@ -256,23 +256,22 @@ impl<P: RuntimeProvider + Send + Sync> SqliteZoneHandler<P> {
 
             info!("persisting zone to journal at SOA.serial: {serial}");
 
-            // TODO: THIS NEEDS TO BE IN A TRANSACTION!!!
-            journal.insert_record(
-                serial,
-                &Record::update0(Name::new(), 0, RecordType::AXFR).into_record_of_rdata(),
-            )?;
+            // the AXFR marker and the zone content are committed together, a partial dump would
+            // otherwise be accepted as the complete zone on recovery
+            let mut dump =
+                vec![Record::update0(Name::new(), 0, RecordType::AXFR).into_record_of_rdata()];
 
             for rr_set in self.in_memory.records().await.values() {
                 // TODO: should we preserve rr_sets or not?
                 for record in rr_set.records_without_rrsigs() {
-                    journal.insert_record(serial, record)?;
+                    dump.push(record.clone());
 
                     #[cfg(feature = "metrics")]
                     self.metrics.zone_records.increment(1);
                 }
             }
 
-            // TODO: COMMIT THE TRANSACTION!!!
+            journal.insert_records(serial, &dump)?;
         }
 
         Ok(())
